@@ -69,3 +69,23 @@ package css_parser
 //@   opt scenario calc_reciprocal_dimension
 //@   site invert-only-plain-numbers: store calcTermWithOp.data new calcInvert requires
 //@       is(value.(*calcInvert).term.data, *calcNumeric) && value.(*calcInvert).term.data.(*calcNumeric).unit == ""
+
+// ----------------------------------------------------------------------------------------------
+// C16 (zero-annotation safety sweep): for ALL arguments (no precondition), no index, slice, nil-dereference,
+// division or conversion in the body of these functions can panic. Loop counters that start at a constant and are
+// only incremented get their lower bound as an automatic invariant (`opt auto-counters`); nothing else is assumed.
+// Calls are replaced by contracts, inlined, or havocked: a panic inside a callee without a contract is not covered.
+//@ func shiftDot
+//@   arith int
+//@   nooverflow off
+//@   safety
+//@   opt auto-counters 1
+//@   prop C16
+
+//@ func mangleNumber
+//@   arith int
+//@   nooverflow off
+//@   safety
+//@   opt auto-counters 1
+//@   prop C16
+
